@@ -78,7 +78,7 @@ def _chain(args):
                         mv = '(MSwapRandSelf %s)' % nl(sorted(fz))
                     else:
                         ct = (1, 2)
-                        if log[0][1] == [1, 2, 3]:
+                        if log[0][1] == [1, 2, 3] and log[0][2] == 2:      # the charge-type draw (k = 2); a position draw has k = 1
                             ct = tuple(log[0][3])
                             log = log[1:]
                         a, b = log[0][3][0], log[1][3][0]
